@@ -32,7 +32,7 @@ fn buffer_lengths(n: usize, idx: u64, bufs: Bufs) -> Vec<usize> {
     if all && n <= 128 {
         (0..=n + 8).collect()
     } else {
-        let mut v = vec![0, 1, n.saturating_sub(4), n.saturating_sub(1), n, n + 1, n + 8];
+        let mut v = vec![0, 1, n.saturating_sub(4), n.saturating_sub(1), n, n + 1, n + 8, 2 * n];
         v.push((idx as usize).wrapping_mul(2654435761) % (n + 9));
         v.sort_unstable();
         v.dedup();
@@ -75,7 +75,7 @@ fn common_setup(ctx: &mut Ctx, what: &str) {
         what
     );
     ctx.bound("flavours", "borrowed/owned x {bare, PacketBuilder, one-member compound, compound of PacketBuilder} rotated over the index; every packet-builder configuration additionally in the probed flavour (builder queried after every call)");
-    ctx.bound("buffer lengths", "all 0..=n+8 for small spaces and n<=128; else {0,1,n-4,n-1,n,n+1,n+8} plus one index-rotated length");
+    ctx.bound("buffer lengths", "all 0..=n+8 for small spaces and n<=128; else {0,1,n-4,n-1,n,n+1,n+8,2n} plus one index-rotated length");
     ctx.bound("compound member lists", ctx.tier.pick("length 0..=3 over a 20-kind menu", "length 0..=4 over a 20-kind menu"));
     ctx.assume("configurations outside the enumerated product spaces (DESIGN.md section 3) are not explored");
 }
